@@ -929,6 +929,67 @@ RE_DOCTYPE_PATTERN = re.compile(
 RE_SAFE_ENTITY_PATTERN = re.compile(rb'\s+(\w+)\s+"(&#\w+;|[^&"]*)"')
 
 
+def _skip_declaration(data: bytes, start: int) -> int:
+    """Return the offset just past the '<!...>' declaration that begins at start.
+
+    Quoted literals, comments, processing instructions and a bracketed
+    internal subset inside the declaration are skipped as a whole.
+    """
+
+    length = len(data)
+    i = start + 2
+    depth = 0
+    while i < length:
+        char = data[i : i + 1]
+        if char in (b'"', b"'"):
+            end = data.find(char, i + 1)
+            i = length if end < 0 else end + 1
+        elif data.startswith(b"<!--", i):
+            end = data.find(b"-->", i + 4)
+            i = length if end < 0 else end + 3
+        elif data.startswith(b"<?", i):
+            end = data.find(b"?>", i + 2)
+            i = length if end < 0 else end + 2
+        elif char == b"[":
+            depth += 1
+            i += 1
+        elif char == b"]":
+            depth -= 1
+            i += 1
+        elif char == b">" and depth <= 0:
+            return i + 1
+        else:
+            i += 1
+    return length
+
+
+def _first_element_offset(data: bytes) -> int:
+    """Return the offset of the '<' of the first start tag, or -1.
+
+    Text that merely looks like a start tag inside a comment, a processing
+    instruction or the DOCTYPE declaration (its quoted literals and internal
+    subset included) does not count.
+    """
+
+    i = 0
+    while True:
+        i = data.find(b"<", i)
+        if i < 0:
+            return -1
+        if data.startswith(b"<!--", i):
+            end = data.find(b"-->", i + 4)
+            i = len(data) if end < 0 else end + 3
+        elif data.startswith(b"<?", i):
+            end = data.find(b"?>", i + 2)
+            i = len(data) if end < 0 else end + 2
+        elif data.startswith(b"<!", i):
+            i = _skip_declaration(data, i)
+        elif re.match(rb"\w", data[i + 1 : i + 2]):
+            return i
+        else:
+            i += 1
+
+
 def replace_doctype(data: bytes) -> tuple[str | None, bytes, dict[str, str]]:
     """Strip and replaces the DOCTYPE.
 
@@ -951,8 +1012,7 @@ def replace_doctype(data: bytes) -> tuple[str | None, bytes, dict[str, str]]:
 
     # Divide the document into two groups by finding the location
     # of the first element that doesn't begin with '<?' or '<!'.
-    match = re.search(rb"<\w", data)
-    first_element = match.start() + 1 if match is not None else 0
+    first_element = _first_element_offset(data) + 1
     head, data = data[:first_element], data[first_element:]
 
     # Save, and then remove, any ENTITY declarations.
